@@ -57,11 +57,40 @@ type Options struct {
 // Host implements the deterministic environment: imported functions return values computed
 // from their arguments and the number of calls so far, and log every call.
 type Host struct {
-	Log     []string
-	calls   uint64
+	Log     []string // log of the most recently used module (kept for single-instance runs)
 	MaxLog  int
 	mod     *wasmgen.Module
 	nesting int
+	per     map[api.Module]*modState
+	cur     *modState
+}
+
+// modState is the host-side state of one calling instance: the host functions behave as
+// pure functions of (arguments, number of calls made by that instance).
+type modState struct {
+	calls uint64
+	log   []string
+}
+
+func (h *Host) state(mod api.Module) *modState {
+	if h.per == nil {
+		h.per = map[api.Module]*modState{}
+	}
+	st := h.per[mod]
+	if st == nil {
+		st = &modState{}
+		h.per[mod] = st
+	}
+	h.cur = st
+	return st
+}
+
+// LogOf returns the host-call log of one instance.
+func (h *Host) LogOf(mod api.Module) []string {
+	if st := h.per[mod]; st != nil {
+		return st.log
+	}
+	return nil
 }
 
 func mix(x uint64) uint64 {
@@ -73,9 +102,9 @@ func mix(x uint64) uint64 {
 	return x
 }
 
-func (h *Host) log(s string) {
-	if h.MaxLog == 0 || len(h.Log) < h.MaxLog {
-		h.Log = append(h.Log, s)
+func (h *Host) log(st *modState, s string) {
+	if h.MaxLog == 0 || len(st.log) < h.MaxLog {
+		st.log = append(st.log, s)
 	}
 }
 
@@ -83,7 +112,7 @@ func (h *Host) log(s string) {
 func (h *Host) Instantiate(ctx context.Context, rt wazero.Runtime, m *wasmgen.Module) error {
 	h.mod = m
 	imps := m.HostImports()
-	b := rt.NewHostModuleBuilder("env")
+	b := rt.NewHostModuleBuilder(hostModule(m))
 	n := 0
 	for _, f := range imps {
 		if strings.HasPrefix(f.HostName, "wasi:") {
@@ -96,7 +125,7 @@ func (h *Host) Instantiate(ctx context.Context, rt wazero.Runtime, m *wasmgen.Mo
 		case "grow":
 			fn = api.GoModuleFunc(func(ctx context.Context, mod api.Module, stack []uint64) {
 				d := uint32(stack[0]) & 1
-				h.log(fmt.Sprintf("grow(%d)", d))
+				h.log(h.state(mod), fmt.Sprintf("grow(%d)", d))
 				res := uint32(0xffffffff)
 				if m.HasMemory {
 					if prev, ok := mod.Memory().Grow(d); ok {
@@ -108,7 +137,7 @@ func (h *Host) Instantiate(ctx context.Context, rt wazero.Runtime, m *wasmgen.Mo
 		case "callback":
 			fn = api.GoModuleFunc(func(ctx context.Context, mod api.Module, stack []uint64) {
 				arg := uint32(stack[0])
-				h.log(fmt.Sprintf("callback(%d)", arg))
+				h.log(h.state(mod), fmt.Sprintf("callback(%d)", arg))
 				stack[0] = 0
 				if h.nesting >= 6 {
 					return
@@ -129,8 +158,9 @@ func (h *Host) Instantiate(ctx context.Context, rt wazero.Runtime, m *wasmgen.Mo
 			})
 		default:
 			fn = api.GoModuleFunc(func(ctx context.Context, mod api.Module, stack []uint64) {
-				h.calls++
-				acc := h.calls * 0x9e3779b97f4a7c15
+				st := h.state(mod)
+				st.calls++
+				acc := st.calls * 0x9e3779b97f4a7c15
 				var sb strings.Builder
 				sb.WriteString(f.HostName)
 				sb.WriteByte('(')
@@ -143,7 +173,7 @@ func (h *Host) Instantiate(ctx context.Context, rt wazero.Runtime, m *wasmgen.Mo
 					acc = mix(acc ^ v)
 				}
 				sb.WriteByte(')')
-				h.log(sb.String())
+				h.log(st, sb.String())
 				for i, r := range f.Sig.R {
 					v := mix(acc + uint64(i))
 					switch r {
@@ -181,7 +211,7 @@ func Run(cfg wazero.RuntimeConfig, m *wasmgen.Module, script []Call, opt Options
 // RunIn is Run inside an existing runtime (the module is instantiated anonymously).
 func RunIn(ctx context.Context, rt wazero.Runtime, m *wasmgen.Module, script []Call, opt Options) (tr Trace) {
 	h := &Host{MaxLog: 2000}
-	if rt.Module("env") == nil {
+	if rt.Module(hostModule(m)) == nil {
 		if err := h.Instantiate(ctx, rt, m); err != nil {
 			tr.Inst = wz.Outcome{Kind: wz.KOther, Detail: "host module: " + err.Error()}
 			return
@@ -207,7 +237,9 @@ func RunIn(ctx context.Context, rt wazero.Runtime, m *wasmgen.Module, script []C
 		mod, err = rt.InstantiateModule(ctx, cm, mc)
 		tr.Inst = wz.Classify(err)
 	}()
-	tr.HostLog = h.Log
+	if h.cur != nil {
+		tr.HostLog = h.cur.log // calls made by the start function
+	}
 	if mod == nil || tr.Inst.Kind != wz.KOK {
 		if tr.Inst.Kind == wz.KOK {
 			tr.Inst = wz.Outcome{Kind: wz.KOther, Detail: "nil module"}
@@ -241,11 +273,18 @@ func RunIn(ctx context.Context, rt wazero.Runtime, m *wasmgen.Module, script []C
 		}
 		tr.Steps = append(tr.Steps, st)
 	}
-	tr.HostLog = h.Log
+	tr.HostLog = h.LogOf(mod)
 	if !opt.NoFinal {
 		Final(ctx, mod, m, &tr)
 	}
 	return
+}
+
+func hostModule(m *wasmgen.Module) string {
+	if m.HostModule != "" {
+		return m.HostModule
+	}
+	return "env"
 }
 
 func firstLine(err error) string { return strings.SplitN(err.Error(), "\n", 2)[0] }
@@ -390,7 +429,7 @@ func funcIdentity(mod api.Module, ti, slot uint32, types []wasmgen.Sig) string {
 			}()
 			f := table.LookupFunction(mod, ti, slot, s.P, s.R)
 			d := f.Definition()
-			if d.GoFunction() != nil || d.ModuleName() == "env" {
+			if d.GoFunction() != nil || strings.HasPrefix(d.ModuleName(), "env") {
 				return "imp" // host functions: experimental LookupFunction is unreliable for them
 			}
 			return fmt.Sprintf("%s.%d", d.ModuleName(), d.Index())
@@ -472,4 +511,106 @@ func (t *Trace) HasKind(k string) bool {
 		}
 	}
 	return false
+}
+
+// ---- multi-instance sessions (C11) ----
+
+// Session holds one runtime, the host environment and one compiled module from which
+// several instances can be created and driven step by step.
+type Session struct {
+	RT   wazero.Runtime
+	Host *Host
+	CM   wazero.CompiledModule
+	M    *wasmgen.Module
+	sigs map[string]wasmgen.Sig
+}
+
+// NewSession compiles m in rt and instantiates the host environment (once per runtime).
+func NewSession(ctx context.Context, rt wazero.Runtime, m *wasmgen.Module) (*Session, error) {
+	s := &Session{RT: rt, Host: &Host{MaxLog: 2000}, M: m, sigs: map[string]wasmgen.Sig{}}
+	if rt.Module(hostModule(m)) == nil {
+		if err := s.Host.Instantiate(ctx, rt, m); err != nil {
+			return nil, err
+		}
+	}
+	cm, err := rt.CompileModule(ctx, m.Bytes)
+	if err != nil {
+		return nil, err
+	}
+	s.CM = cm
+	for _, e := range m.Exports() {
+		s.sigs[e.Export] = e.Sig
+	}
+	return s, nil
+}
+
+// Inst is one instance of a session.
+type Inst struct {
+	S    *Session
+	Mod  api.Module
+	Tr   Trace
+	fuel api.MutableGlobal
+}
+
+// Instantiate creates an anonymous instance with the given module config (nil = default).
+func (s *Session) Instantiate(ctx context.Context, mc wazero.ModuleConfig) *Inst {
+	if mc == nil {
+		mc = wazero.NewModuleConfig()
+	}
+	in := &Inst{S: s}
+	func() {
+		defer func() {
+			if r := recover(); r != nil {
+				in.Tr.Inst = wz.Outcome{Kind: wz.KInternal, Detail: fmt.Sprintf("panic escaped Instantiate: %v", r)}
+			}
+		}()
+		s.Host.cur = nil
+		mod, err := s.RT.InstantiateModule(ctx, s.CM, mc.WithName("").WithStartFunctions())
+		in.Tr.Inst = wz.Classify(err)
+		if err == nil {
+			in.Mod = mod
+		}
+	}()
+	if in.Mod == nil {
+		if s.Host.cur != nil {
+			in.Tr.HostLog = s.Host.cur.log
+		}
+		return in
+	}
+	if s.M.FuelGlob != "" {
+		in.fuel, _ = in.Mod.ExportedGlobal(s.M.FuelGlob).(api.MutableGlobal)
+	}
+	return in
+}
+
+// Call performs one script step on the instance.
+func (in *Inst) Call(ctx context.Context, c Call, fuel int32) {
+	if in.Mod == nil {
+		return
+	}
+	f := in.Mod.ExportedFunction(c.Fn)
+	if f == nil {
+		in.Tr.Steps = append(in.Tr.Steps, Step{Kind: "no-such-export"})
+		return
+	}
+	if in.fuel != nil && fuel > 0 && !in.Mod.IsClosed() {
+		in.fuel.Set(uint64(uint32(fuel)))
+	}
+	res, out := wz.SafeCall(ctx, f, c.Args...)
+	st := Step{Kind: out.Kind, Detail: out.Detail, Exit: out.Exit}
+	if out.Kind == wz.KOK {
+		st.Results = canonResults(in.S.sigs[c.Fn].R, res)
+	}
+	in.Tr.Steps = append(in.Tr.Steps, st)
+}
+
+// Finish captures the final state and the instance's host log.
+func (in *Inst) Finish(ctx context.Context) *Trace {
+	if in.Mod != nil {
+		in.Tr.HostLog = in.S.Host.LogOf(in.Mod)
+		if !in.Mod.IsClosed() {
+			Final(ctx, in.Mod, in.S.M, &in.Tr)
+		}
+	}
+	return &in.Tr
 }
